@@ -344,6 +344,34 @@ func c11Scenarios() []c11Scenario {
 			}
 			return
 		}})
+	// S5d: three partial updates of one key (a lock that is handed from the first to the second request while a third
+	// arrives is the smallest shape in which a per-key lock table can go wrong)
+	sc = append(sc, c11Scenario{name: "S5d:neuronjson:post||post||post:same-key", setup: njWorld,
+		bodies: func(w *c11World) []func() {
+			u := "node/" + w.root + "/nj/key/1?u=t"
+			return []func(){func() { w.resp[0] = vsrv.PostS(u, `{"bodyid":1,"a":"x"}`) }, func() { w.resp[1] = vsrv.PostS(u, `{"bodyid":1,"b":"y"}`) },
+				func() { w.resp[2] = vsrv.PostS(u, `{"bodyid":1,"c":"w"}`) }}
+		},
+		verdict: func(w *c11World) (bad []string) {
+			x := vsrv.Get("node/" + w.root + "/nj/key/1")
+			var m map[string]interface{}
+			json.Unmarshal(x.Body, &m)
+			for i, f := range []string{"a", "b", "c"} {
+				if acked(w.resp[i]) && m[f] == nil {
+					bad = append(bad, fmt.Sprintf("field-lost\tthree acknowledged partial updates of one key raced; field %q is missing afterwards: %s", f, x))
+				}
+			}
+			if m["z"] == nil {
+				bad = append(bad, "field-lost:preexisting\tthe pre-existing field disappeared: "+x.String())
+			}
+			vsrv.Commit(w.root)
+			child, _ := vsrv.NewVersion(w.root)
+			a, b := vsrv.Get("node/"+w.root+"/nj/key/1"), vsrv.Get("node/"+child+"/nj/key/1")
+			if njNormalize(a.Code, a.Body) != njNormalize(b.Code, b.Body) {
+				bad = append(bad, fmt.Sprintf("memory-store-disagree\tafter the race the store path answers %s and the in-memory path %s", a, b))
+			}
+			return
+		}})
 	// ---- S4 labelmap ----
 	lmWorld := func() (*c11World, error) {
 		root, err := vsrv.NewRepo()
